@@ -233,6 +233,7 @@ class Program:
             self._add_module(rel, 'notebooks.' + p.stem, tree, src)
 
     def _add_module(self, rel: str, modname: str, tree: ast.Module, src: str):
+        tree = _Canon().visit(tree)
         m = ModuleInfo(
             relpath=rel,
             modname=modname,
@@ -420,6 +421,27 @@ class Program:
             h.update(r.encode())
             h.update(self.modules[r].digest.encode())
         return h.hexdigest()
+
+
+class _Canon(ast.NodeTransformer):
+    """Canonicalise spellings that do not change behaviour, so that rules see one
+    form: `x = x op e` (and `x = e op x` for + and *) becomes `x op= e`."""
+
+    def visit_Assign(self, n):
+        self.generic_visit(n)
+        if len(n.targets) == 1 and isinstance(n.targets[0], (ast.Name, ast.Attribute, ast.Subscript)) \
+                and isinstance(n.value, ast.BinOp):
+            t = ast.unparse(n.targets[0])
+            v = n.value
+            if ast.unparse(v.left) == t:
+                return ast.copy_location(ast.AugAssign(target=n.targets[0], op=v.op, value=v.right), n)
+            if isinstance(v.op, (ast.Add, ast.Mult)) and ast.unparse(v.right) == t and not _maybe_sequence(v.left):
+                return ast.copy_location(ast.AugAssign(target=n.targets[0], op=v.op, value=v.left), n)
+        return n
+
+
+def _maybe_sequence(e):
+    return isinstance(e, (ast.List, ast.Tuple, ast.Constant)) and not isinstance(getattr(e, 'value', 0), (int, float))
 
 
 def dotted_name(e: ast.AST) -> str | None:
